@@ -634,6 +634,10 @@ EvalSymlinks(st, c) ==
     ELSE Ret([R0 EXCEPT !.path = [abs |-> TRUE, parts |-> NamesOf(r)]], st)
 
 Getwd(st, c) == Ret([R0 EXCEPT !.path = [abs |-> TRUE, parts |-> st.cwdn]], st)
+\* Abs: lexical - the working directory in front of a relative path, then Clean; nothing is looked up
+AbsOf(st, c) == Ret([R0 EXCEPT !.path = [abs |-> TRUE, parts |-> LexCleanAcc(TRUE, <<>>, IF c.p.abs THEN c.p.parts ELSE st.cwdn \o c.p.parts)]], st)
+\* SetUser / SetUserByName called on the file system itself (the call "setuser" is the driver's change of acting identity)
+VSetUser(st, c) == Ok([st EXCEPT !.uid = c.uid, !.gid = c.gid, !.grps = {}])
 
 (***************************************************************************)
 (* Dispatch.  Handle operations live in FsHandles (HApply).                *)
@@ -641,7 +645,7 @@ Getwd(st, c) == Ret([R0 EXCEPT !.path = [abs |-> TRUE, parts |-> st.cwdn]], st)
 NsOps == {"mkdir", "mkdirall", "openclose", "open", "create", "writefile", "createtemp", "mkdirtemp",
           "remove", "removeall", "rename", "link", "symlink", "truncate", "chmod", "chown", "lchown",
           "chtimes", "chdir", "setumask", "setuser", "stat", "lstat", "readlink", "readdir", "readfile",
-          "evalsymlinks", "getwd"}
+          "evalsymlinks", "getwd", "abs", "vsetuser", "vsetuserbyname"}
 
 NsApply(st, c) ==
     CASE c.op = "mkdir"        -> Mkdir(st, c)
@@ -672,6 +676,8 @@ NsApply(st, c) ==
       [] c.op = "readfile"     -> ReadFile(st, c)
       [] c.op = "evalsymlinks" -> EvalSymlinks(st, c)
       [] c.op = "getwd"        -> Getwd(st, c)
+      [] c.op = "abs"          -> AbsOf(st, c)
+      [] c.op \in {"vsetuser", "vsetuserbyname"} -> VSetUser(st, c)
 
 (***************************************************************************)
 (* Initial state and the canonical projection.                             *)
